@@ -1,2 +1,4 @@
 import Model.Path
 import Model.Spec
+import Model.Basic
+import Model.Layers
